@@ -158,6 +158,21 @@ def sibling_cases(tier, rng):
     return out
 
 
+def namespace_cases(tier, rng):
+    """values bound with the keyword form of _.namespace(...) / _(...) and brought into scope by dtml-with: the bound name
+    follows the rules of every other name (called by tags, uncalled in expressions, a template rendered on the current
+    namespace), shadows the outer binding inside the block only"""
+    out = []
+    for kind in ('plain', 'fn', 'tmpl', 'falsy'):
+        for u in (False, True):
+            for r in refs(kind):
+                kw = {'src': val(kind, 'src'), 'n': plain('outer-n'), 'm': plain('m-outer'), 'both': plain('both-outer')}
+                for wrap in (lambda b: b, lambda b: [Let([('m', N('n'))], b)], lambda b: [In(N('l'), b)]):
+                    prog = [V('n'), T('|')] + wrap([With(MkNs('src', 'n', u), [T('(')] + r + [T(')')]), V('n')]) + [T('|'), V('n')]
+                    out.append(dict(prog=prog, src=sources(kw=dict(kw, l=lst('L', [obj('I', z=plain('z1'))]))), K=0, fk=[]))
+    return out
+
+
 def _lookup_stages(V, tier):
     from checks import c02_lookup
     return c02_lookup.stages(V, tier)
@@ -165,7 +180,7 @@ def _lookup_stages(V, tier):
 
 def main(tier):
     rng = random.Random(common.seed())
-    cases = precedence_cases(tier, rng) + scoping_cases(tier, rng) + sibling_cases(tier, rng)
+    cases = precedence_cases(tier, rng) + scoping_cases(tier, rng) + sibling_cases(tier, rng) + namespace_cases(tier, rng)
     return render_common.run(
         PID, tier, cases, ['result', 'calls'], batch=3000, extra_stage=_lookup_stages,
         assumptions=['each source binds the probed name to a distinct marker (plain, logging callable, template '
